@@ -929,7 +929,9 @@ def gen_stream(rng: random.Random, kind: str, role: str) -> bytes:
         return rng.choice([b'\n', b'\r\n', b'x\n']) * n
     if kind == 'ssh-junk':
         return rng.choice([b'SSH-', b'SSH-1.5-x\r\n', b'SSH-2.0', b'SSH-2.0-\r\n', b'SSH-1.99-x\n', b'SSH-9.9-x\n',
-                           b'SSH-2.0-' + b'v' * 300 + b'\n', b'ssh-2.0-x\n', b'\nSSH-2.0-x\n']) + \
+                           b'SSH-2.0-' + b'v' * 300 + b'\n', b'ssh-2.0-x\n', b'\nSSH-2.0-x\n',
+                           b'SSH-2.0-caf\xc3\xa9\r\n', b'SSH-2.0-' + bytes(rng.getrandbits(8) | 0x80 for _ in range(5)) + b'\n',
+                           b'SSH-1.99-\xff\n', b'SSH-2.0-x y\x00z\r\n']) + \
             bytes(rng.getrandbits(8) for _ in range(rng.choice([0, 5, 100])))
     if kind == 'huge-length':
         return raw_frame(rng.choice([U32, 0x7fffffff, 0x80000000, 35001, 262145]), bytes(rng.choice([4, 100, 5000])))
